@@ -737,7 +737,7 @@ API_C07 = {
     'covered_before': ['AbstractBasis.get_dofs (facets / elements / nodes / skip, dictionary form)', 'AbstractBasis.complement_dofs (one, several, dict)',
                        'Dofs.get_facet_dofs / get_element_dofs / get_vertex_dofs / _dofnames_to_rows / _by_name', 'DofsView.flatten / all / keep / drop / __or__ / '
                        'nodal / facet / edge / interior / __array__', 'Mesh._expand_facets', 'Mesh.normalize_facets / normalize_elements / normalize_nodes (all forms, '
-                       'empty collections, ints)', 'Mesh.with_boundaries / with_subdomains / with_defaults (histories)', 'Mesh.facets_satisfying / nodes_satisfying / '
+                       'empty collections, ints)', 'Mesh.with_boundaries / with_subdomains / with_defaults (histories; default tags on graded tensor meshes)', 'ElementVector.dofnames vs component/row layout (multi-DOF-per-entity bases)', 'Mesh.facets_satisfying / nodes_satisfying / '
                        'elements_satisfying (boundaries_only, normal)', 'MeshTri2 / MeshQuad2 / MeshTet2 contexts'],
     'covered_now': ['DofsView.__len__ / __add__ / sort / __str__', 'FacetBasis.get_dofs and CellBasis.with_elements(...).get_dofs (same answers as the full cell basis)',
                     'Mesh.normalize_nodes point form (tuple of coordinates)', 'get_dofs with an OrientedBoundary tag / facets_around result as selector',
@@ -1042,6 +1042,10 @@ def run(ctx):
                     'evaluation of predicates on float midpoints (runtime part; the harness evaluates the same predicate on the same midpoints)']
     ctx.assumptions += ['name filters: the theorem is conditional on the name offsets being the basis-function order; that condition is a '
                         'separate generated obligation (Gen/C07NameOrder.v)']
+    ctx.assumptions += ['default tags (with_defaults): checked on tensor meshes graded the SAME way along every axis (isotropic cells at the corners, '
+                        'size ratio up to 1000:1), where tolerance min(params())/100 is right.  NOTE (observation, not checked): params() is the LONGEST edge per '
+                        'cell, so on strongly anisotropic boundary-layer meshes (cells thinner than 1/100 of their length at a side) the unchanged code '
+                        'already tags interior facets next to that side; such meshes are deliberately not generated']
     ctx.ensure_static()
     known = NAME_KEY in ctx.known.findings.get('C07', {})
     gen_ok = True
@@ -1135,6 +1139,12 @@ def run(ctx):
             except Exception as ex:
                 import traceback
                 ctx.fail(f'elem={name}:{kind}:oracle-exception', f'{type(ex).__name__}: {ex}', {'kind': kind, 'element': name, 'tb': traceback.format_exc()[-600:]})
+    for fn, key in ((oracle_vector_names, 'names:vector-oracle-exception'), (oracle_default_tags, 'retag:default-tags-oracle-exception')):
+        try:
+            fn(ctx, rng)
+        except Exception as ex:
+            import traceback
+            ctx.fail(key, f'{type(ex).__name__}: {ex}', {'tb': traceback.format_exc()[-800:]})
     ctx.extra['api_coverage'] = API_C07
     if gen_ok:
         corr_wrappers(ctx, rng, sat_meshes)
@@ -1192,6 +1202,184 @@ def corr_wrappers(ctx, rng, meshes):
     for i in bad or []:
         kind, bo, ng, t = cases[i][2]
         ctx.log('disagreeing *_satisfying case:', kind, 'boundaries_only', bo, 'normal given', ng)
+
+
+def _local_names(elem, has_edges):
+    """names of the local basis functions in their order (nodal per vertex, edge, facet, interior) from element.dofnames"""
+    rd = elem.refdom
+    nd, ed, fd, idd = elem.nodal_dofs, elem.edge_dofs, elem.facet_dofs, elem.interior_dofs
+    dn = list(elem.dofnames)
+    out = []
+    out += [dn[k] for _ in range(rd.nnodes) for k in range(nd)]
+    off = nd
+    if has_edges:
+        out += [dn[off + k] for _ in range(rd.nedges) for k in range(ed)]
+        off += ed
+    out += [dn[off + k] for _ in range(rd.nfacets) for k in range(fd)]
+    off += fd
+    out += [dn[off + k] for k in range(idd)]
+    return out
+
+
+def oracle_vector_names(ctx, rng):
+    """ElementVector over base elements with SEVERAL DOFs per entity kind: the DOF named <name>^k must be the k-th component of the
+    base function called <name> — read off the basis functions themselves (which component is non-zero, which scalar base function
+    it equals), not off any table of names; then the queries by name (all / keep / drop / skip) are checked against that."""
+    import skfem
+    import skfem.element as E
+    from skfem import Basis
+    bases = [('line', 'ElementLineHermite', lambda: E.ElementLineHermite(), 2), ('line', 'ElementLinePp(3)', lambda: E.ElementLinePp(3), 2),
+             ('tri', 'ElementTriP3', lambda: E.ElementTriP3(), None), ('tri', 'ElementTriP4', lambda: E.ElementTriP4(), None),
+             ('quad', 'ElementQuadP(3)', lambda: E.ElementQuadP(3), None), ('tri', 'ElementTriP2', lambda: E.ElementTriP2(), 3),
+             ('tri', 'ElementTriHermite', lambda: E.ElementTriHermite(), None), ('tet', 'ElementTetP2', lambda: E.ElementTetP2(), None)]
+    for kind, bname, mk, n in bases:
+        try:
+            base = mk()
+            ev = E.ElementVector(base, n) if n else E.ElementVector(base)
+        except Exception:
+            continue                                         # class not exported by this version
+        m = M.gen_mesh(rng, kind, maxcells=6 if kind == 'tet' else 8)[0]
+        try:
+            vb = Basis(m, ev, intorder=4)
+            sb = Basis(m, base, intorder=4)
+        except Exception as ex:
+            ctx.fail(f'elem=ElementVector({bname}):basis-exception', f'{type(ex).__name__}: {ex}', {'kind': kind, 'element': bname})
+            continue
+        dim = ev.dim
+        has_edges = m.dim() == 3
+        sn, vn = _local_names(base, has_edges), _local_names(ev, has_edges)
+        data = {'kind': kind, 'element': f'ElementVector({bname}, {dim})', 'p': m.p.tolist(), 't': m.t.tolist()}
+        ctx.count(('vector-names', kind, bname, m.t.tolist()), nontrivial=max(base.nodal_dofs, base.edge_dofs, base.facet_dofs, base.interior_dofs) > 1)
+        truth = {}                                           # global DOF -> name it must carry
+        bad = None
+        svals = [np.asarray(sb.basis[j][0].value) for j in range(len(sb.basis))]
+        for i in range(len(vb.basis)):
+            val = np.asarray(vb.basis[i][0].value)           # (dim, nel, nqp)
+            comps = [k for k in range(dim) if np.abs(val[k]).max() > 1e-12]
+            js = [j for j in range(len(svals)) if comps and np.allclose(val[comps[0]], svals[j], atol=1e-10)]
+            if len(comps) != 1 or len(js) != 1:
+                bad = bad or (i, f'local function {i} has non-zero components {comps} and equals the scalar base functions {js}')
+                continue
+            want = f'{sn[js[0]]}^{comps[0] + 1}'
+            for e in range(m.t.shape[1]):
+                truth[int(vb.element_dofs[i, e])] = want
+            if vn[i] != want and bad is None:
+                bad = (i, f'local basis function {i} is component {comps[0] + 1} of the base function "{sn[js[0]]}" but is named "{vn[i]}"')
+        if bad:
+            ctx.fail('names:vector-component', f'ElementVector({bname}, {dim}) on {type(m).__name__}: {bad[1]}; queries by DOF name select '
+                     'functions of another component / another base DOF', dict(data, local=bad[0], dofnames=list(ev.dofnames)))
+            continue
+        # the queries by name against the truth
+        allE = np.arange(m.t.shape[1])
+        bf = m.boundary_facets()
+        F = bf[:max(1, len(bf) // 2)]
+        for nm in sorted(set(truth.values())):
+            T = {d for d, x in truth.items() if x == nm}
+            view = vb.get_dofs(facets=F)
+            flat = set(int(x) for x in view.flatten())
+            chk = [('get_dofs(elements=all).all', vb.get_dofs(elements=allE).all([nm]), T),
+                   ('get_dofs(facets=F).all', view.all([nm]), flat & T),
+                   ('get_dofs(facets=F).keep(..).flatten', view.keep([nm]).flatten(), flat & T),
+                   ('get_dofs(facets=F).drop(..).flatten', view.drop([nm]).flatten(), flat - T),
+                   ('get_dofs(facets=F, skip=..).flatten', vb.get_dofs(facets=F, skip=[nm]).flatten(), flat - T)]
+            for what, got, want in chk:
+                got = sorted(int(x) for x in np.asarray(got).ravel())
+                if got != sorted(want):
+                    ctx.fail('names:vector-component', f'ElementVector({bname}, {dim}) on {type(m).__name__}: {what} with name "{nm}" gives {got[:10]}... '
+                             f'but the DOFs whose basis function is that component of that base function are {sorted(want)[:10]}...',
+                             dict(data, name=nm, call=what, facets=np.asarray(F).tolist(), got=got, want=sorted(want)))
+                    break
+
+
+def _graded(rng, n, ratio):
+    """1-D grid on [0, L]: cell sizes grow geometrically from both ends towards the middle (or from one end), ratio up to `ratio`"""
+    q = ratio ** (1.0 / max(1, n - 1))
+    h = np.array([q ** k for k in range(n)])
+    mode = int(rng.integers(3))
+    if mode == 0:
+        hs = h
+    elif mode == 1:
+        hs = h[::-1]
+    else:
+        hs = np.concatenate([h, h[::-1]])
+    x = np.concatenate([[0.0], np.cumsum(hs)])
+    return x / x[-1] * float(rng.choice([1.0, 2.5])) + float(rng.choice([0.0, -1.0]))
+
+
+def oracle_default_tags(ctx, rng):
+    """with_defaults() on meshes graded in ALL directions (isotropic cells at the corners, size ratio up to 1000:1): the tags left /
+    right / bottom / top / front / back are exactly the boundary facets on that side of the bounding box (coordinate predicate), and
+    get_dofs by tag name, by the stored index array and by the predicate agree"""
+    import skfem
+    import skfem.element as E
+    from skfem import Basis
+    for kind in ('tri', 'quad', 'hex', 'tet', 'line'):
+        for rep in range(2):
+            ratio = float(rng.choice([30.0, 300.0, 1000.0]))
+            n = int(rng.integers(6, 9)) if kind in ('hex', 'tet') else int(rng.integers(8, 14))
+            g = _graded(rng, n, ratio)                   # the SAME grading along every axis: cells on the diagonal are isotropic
+            if kind in ('hex', 'tet') and len(g) > 9:
+                g = _graded_trim(g)
+            if not _check_default_tags(ctx, kind, g, ratio):
+                return
+
+
+def _check_default_tags(ctx, kind, g, ratio):
+    import skfem
+    import skfem.element as E
+    from skfem import Basis
+    names = [('left', 'right'), ('bottom', 'top'), ('front', 'back')]
+    g = np.asarray(g, dtype=float)
+    if True:
+        if True:
+            try:
+                if kind == 'line':
+                    m, el = skfem.MeshLine(g), E.ElementLineP2()
+                elif kind == 'tri':
+                    m, el = skfem.MeshTri.init_tensor(g, g), E.ElementTriP2()
+                elif kind == 'quad':
+                    m, el = skfem.MeshQuad.init_tensor(g, g), E.ElementQuad2()
+                elif kind == 'hex':
+                    m, el = skfem.MeshHex.init_tensor(g, g, g), E.ElementHex1()
+                else:
+                    m, el = skfem.MeshTet.init_tensor(g, g, g), E.ElementTetP1()
+            except Exception:
+                return True
+            data = {'kind': kind, 'grid': g.tolist(), 'ratio': ratio}
+            try:
+                md = m.with_defaults()
+            except Exception as ex:
+                ctx.fail('retag:with_defaults', f'{type(m).__name__}.with_defaults() raises {type(ex).__name__}: {ex} on a graded tensor mesh', data)
+                return True
+            ctx.count(('default-tags', kind, g.tolist()), nontrivial=True)
+            ctx.hist('default-tags grading', int(ratio))
+            b = Basis(md, el)
+            mid = md.p[:, md.facets].mean(axis=1)
+            bfs = md.boundary_facets()
+            for d in range(md.p.shape[0]):
+                lo, hi = float(md.p[d].min()), float(md.p[d].max())
+                for nm, side in zip(names[d], (lo, hi)):
+                    want = np.array([f for f in bfs if abs(mid[d, f] - side) <= 1e-12 * max(1.0, abs(side))], dtype=np.int64)
+                    got = np.sort(np.asarray((md.boundaries or {}).get(nm, np.array([], dtype=np.int64))).astype(np.int64))
+                    if got.tolist() != want.tolist():
+                        inter = [int(f) for f in got if f not in set(bfs.tolist())]
+                        ctx.fail('retag:default-tags', f'{type(md).__name__}.with_defaults() on a mesh graded {int(ratio)}:1 towards its sides: tag "{nm}" holds '
+                                 f'{len(got)} facets, the boundary facets with x[{d}] == {side} are {len(want)} ({len(inter)} tagged facets are interior facets); '
+                                 'the tag, the index array and the coordinate predicate no longer denote the same facets',
+                                 dict(data, tag=nm, got=got.tolist()[:40], want=want.tolist()[:40]))
+                        return False
+                    byname = np.asarray(b.get_dofs(nm).flatten()).tolist()
+                    bypred = np.asarray(b.get_dofs(lambda x, d=d, side=side: np.abs(x[d] - side) <= 1e-12 * max(1.0, abs(side))).flatten()).tolist()
+                    byarr = np.asarray(b.get_dofs(want.astype(np.int32)).flatten()).tolist()
+                    if not (byname == bypred == byarr):
+                        ctx.fail('retag:default-tags', f'{type(md).__name__} graded {int(ratio)}:1: get_dofs("{nm}") gives {len(byname)} DOFs, by predicate '
+                                 f'{len(bypred)}, by index array {len(byarr)}', dict(data, tag=nm))
+                        return False
+    return True
+
+
+def _graded_trim(g):
+    return g[:9] if len(g) > 9 else g
 
 
 def _try_all(ctx, head, defs):
@@ -1327,6 +1515,13 @@ def replay(ctx, data):
     """re-run the set-based oracle (closure, names, complement, default) on the recorded mesh and element"""
     from .. import c04_elems as EL
     inp = data['input']
+    if data.get('key') == 'retag:default-tags' and 'grid' in inp:
+        _check_default_tags(ctx, inp['kind'], inp['grid'], inp.get('ratio', 0))
+        return
+    if data.get('key') == 'names:vector-component':
+        for k in range(3):
+            oracle_vector_names(ctx, np_seed(ctx, 7 + k))
+        return
     if 'p' not in inp:
         return run(ctx)
     import skfem.element as _E
